@@ -238,17 +238,21 @@ def lowerAugAssign (n : Nsp) (target : Expr) (op : BinOpK) (value : Expr) (st : 
       pure ([← n.getAssign id (augAssignExpr t op v (.binOp t op v))], st)
   | .subscript tv ts =>
       let (tmpSlice, st) := st.fresh "sllice"
+      let (tmpObj, st) := st.fresh "augobj"
       let parent ← transf n [] tv
       let sl := convertIndex (← transf n [] ts)
       let body := augAssignExpr (.name tmpTarget) op v (.namedExpr tmpTarget (.binOp (.name tmpTarget) op v))
-      pure ([.namedExpr tmpSlice sl,
-             .namedExpr tmpTarget (.subscript parent (.name tmpSlice)),
-             .call (.attribute parent "__setitem__") [.name tmpSlice, body] []], st)
+      pure ([.namedExpr tmpObj parent,
+             .namedExpr tmpSlice sl,
+             .namedExpr tmpTarget (.subscript (.name tmpObj) (.name tmpSlice)),
+             .call (.attribute (.name tmpObj) "__setitem__") [.name tmpSlice, body] []], st)
   | .attribute tv a =>
+      let (tmpObj, st) := st.fresh "augobj"
       let parent ← transf n [] tv
       let body := augAssignExpr (.name tmpTarget) op v (.namedExpr tmpTarget (.binOp (.name tmpTarget) op v))
-      pure ([.namedExpr tmpTarget (.attribute parent a),
-             .call (.name "setattr") [parent, Expr.str a, body] []], st)
+      pure ([.namedExpr tmpObj parent,
+             .namedExpr tmpTarget (.attribute (.name tmpObj) a),
+             .call (.name "setattr") [.name tmpObj, Expr.str a, body] []], st)
   | _ => .error (.notImplemented "Unknown augmented assignment target")
 
 def lowerImport (n : Nsp) : List Alias → Except Err (List Expr)
@@ -325,6 +329,15 @@ def classKeywords (n : Nsp) : List Keyword → Except Err (Option Expr × List K
         -- the last `metaclass=` wins (the loop overwrites)
         pure (some (m.getD v'), rest)
       else pure (m, .mk a v' :: rest)
+
+/-- the parameter list of the emitted lambda (`PendingFunctionDef.__init__`): names and kinds are
+    copied, annotations dropped, default values sent through the expression transformer of the
+    *defining* namespace -/
+def lowerFunctionHead (n : Nsp) : Arguments → Except Err Arguments
+  | .mk po as va ko kd kw ds => do
+      let ds' ← transfList n [] ds
+      let kd' ← transfOptList n [] kd
+      pure (.mk po as va ko kd' kw ds')
 
 /-! ### statements and blocks -/
 
@@ -415,7 +428,7 @@ mutual
           pure (pre ++ [loop] ++ (if o.isEmpty then [] else [oe]), st)
     | .assign targets value, st => do
         let v ← transf cx.nsp [] value
-        if targets.length > 1 then
+        if targets.length > 1 || (match targets with | [.attribute ..] => true | [.subscript ..] => true | _ => false) then
           let (tmp, st) := st.fresh "assign"
           let (r, st) ← assignTargets cx.nsp (.name tmp) targets st
           pure (.namedExpr tmp v :: r, st)
@@ -425,15 +438,18 @@ mutual
         | none => .ok ([], st)
         | some value => do
             let v ← transf cx.nsp [] value
-            assignAuto cx.nsp false target v st
+            if (match target with | .attribute .. => true | .subscript .. => true | _ => false) then
+              let (tmp, st) := st.fresh "assign"
+              let (r, st) ← assignAuto cx.nsp false target (.name tmp) st
+              pure (.namedExpr tmp v :: r, st)
+            else assignAuto cx.nsp false target v st
     | .augAssign target op value, st => lowerAugAssign cx.nsp target op value st
     | .import_ names, st => do
         pure (← lowerImport cx.nsp names, { st with useImportlib := true })
     | .importFrom m names level, st => lowerImportFrom cx.nsp m names level st
-    | .functionDef name (.mk po as va ko kd kw ds) body decorators lineno, st => do
+    | .functionDef name args body decorators lineno, st => do
         let inner ← findChild cx.nsp name lineno .function
-        let ds' ← transfList cx.nsp [] ds
-        let kd' ← transfOptList cx.nsp [] kd
+        let args' ← lowerFunctionHead cx.nsp args
         let fnUsed := guardsInL .function body
         let (b, st) ← lowerBlock { cfg := cx.cfg, nsp := inner, loops := [], fnUsed := fnUsed } body st
         let pre : List Expr :=
@@ -446,7 +462,7 @@ mutual
         let mid := match cx.cfg.wrapper with
           | .list => b
           | .chainCall => [wrapExprs cx.cfg b]
-        let lam : Expr := .lambda (.mk po as va ko kd' kw ds')
+        let lam : Expr := .lambda args'
           (.subscript (listWrapper (pre ++ mid ++ [.name inner.retvName])) Expr.neg1)
         let lam ← applyDecorators cx.nsp decorators lam
         let lam := if inner.isMethod && name == "__init_subclass__" then .call (.name "classmethod") [lam] [] else lam
